@@ -44,7 +44,8 @@ class Run(OpsMixin, CallsMixin):
         self.witnesses = []
         self.classes = {}         # class name -> id
         self.bound = {}           # spec-mode bound variables
-        self.iter_elem = {}       # address sexpr -> declared element type of an iterator
+        self.iter_elem = {}
+        self.gen_yields = {}       # address sexpr -> declared element type of an iterator
         self.dict_key_type = {}   # address sexpr -> declared key type of a dict
         self.list_elem_type = {}  # address sexpr -> declared element type of a list
         self.tagsets = {}         # value sexpr -> tags allowed by its declared type
